@@ -452,6 +452,20 @@ def cx_esc_cases(rng, count):
             chunks += [key_bytes(k) for k in sub]
         chunks += [key_bytes(k) for k in post]
         cases.append(Case(keys, mode="emacs", history=["h1", "old"], timeout="none", prompt="> ", reads=2, chunks=chunks, cols=80, meta={}))
+    # the built-in C-x commands (C-x C-u, C-x Backspace, C-x C-g) typed while the application has bound ANOTHER sequence that
+    # starts with C-x: the second key is used once, the keys after it act normally
+    for i in range(max(4, count // 2)):
+        pre = list(rand_text(rng, 1, 3, ["a", "b", "é"]))
+        sub = [["C-x", "C-u"], ["C-x", "Backspace"], ["C-x", "C-g"], ["C-x", "C-e"], ["C-x", "C-u", "C-x", "C-e"]][i % 5]
+        post = rng.choice([["c", "Enter"], ["Enter"], ["z", "C-x", "C-u", "Enter"]])
+        keys = pre + sub + post
+        cases.append(Case(keys, mode="emacs", timeout=rng.choice(["none", 0]), prompt="> ", reads=2, chunks=[key_bytes(k) for k in keys],
+                          binds=[("C:58,C:45", "insert 71.71")], cols=80, meta={}))
+    # circular completion: Shift-Tab while the FIRST candidate is shown (and around the whole cycle)
+    for i in range(max(3, count // 3)):
+        keys = ["f"] + [["Tab", "BackTab"], ["Tab", "BackTab", "BackTab"], ["Tab", "Tab", "BackTab", "BackTab", "BackTab"]][i % 3] + ["x", "Enter", "Enter"]
+        cases.append(Case(keys, mode=["emacs", "vi"][i % 2], timeout=0, prompt="> ", reads=2, chunks=[key_bytes(k) for k in keys],
+                          cands=["foo", "fab"], cols=80, meta={}))
     return cases
 
 
@@ -664,9 +678,15 @@ def c14_ending_case(rng, i):
               ["C-]", "f"], ["C-r", "Tab", "Tab"], ["C-r", "f", "Tab"], ["M-2", "C-r", "o"],
               # an abort while a candidate is shown (or the original has come round again), then undos: the aborted episode
               # is not in the undo list
-              ["C-g", "C-_"], ["C-g", "C-_", "C-_"], ["C-g", "x", "C-_", "C-_"], ["C-g", "M-3", "C-_"]][i // 2 % 14]
+              ["C-g", "C-_"], ["C-g", "C-_", "C-_"], ["C-g", "x", "C-_", "C-_"], ["C-g", "M-3", "C-_"],
+              # the key ending the completion is a yank-pop / a kill: what it does depends on the command BEFORE the Tab
+              ["M-y"], ["C-k", "C-y"]][i // 2 % 16]
     typed = rng.choice(["ls fo", "fo", "cd  f", "b"])
     tabs = ["Tab"] * rng.randint(1, 3)
+    if ending in (["M-y"], ["C-k", "C-y"]):
+        typed = rng.choice(["zz fo", "q fo"])
+        return Case(list(typed) + ["C-w", "C-y"] + tabs + ending + ["Enter", "Enter"], mode="emacs", completion=ct,
+                    cands=["foo", "foobar", "food"], history=["foo a"], timeout="none", prompt="> ", cols=80)
     return Case(list(typed) + tabs + ending + ["Enter", "Enter"], mode="emacs", completion=ct, cands=["foo", "foobar", "food", "bar", "baz"],
                 history=["cargo build", "foo a", "echo fa"], timeout="none", prompt="> ", cols=80)
 
@@ -1040,6 +1060,21 @@ def c06_cases(tier, seed):
     n = 4000 if tier == "thorough" else 260
     cases = []
     EK = ["C-k", "C-u", "C-w", "M-d", "M-Backspace", "C-k", "C-w"]
+    # vi: consecutive kills by character searches in both directions (d f / d F / d t / d T / d ; / d ,), a change-type kill right
+    # after another kill, then puts: forward kills append, backward kills prepend, whatever the operator
+    for i in range(max(10, n // 20)):
+        t = rng.choice(["abc def ghi", "abc déf ghi", "a-b-c-d-e", "one two three"])
+        target = rng.choice([c for c in t if c not in " "])
+        seq = [["$", "d", "F", target, "d", "F", rng.choice(t), "P"], ["0", "d", "f", target, "d", "f", rng.choice(t), "p"],
+               ["$", "d", "T", target, "d", ";", "P"], ["0", "d", "t", target, "d", ",", "P"],
+               ["0", "d", "w", "c", "w", "Esc", "P"], ["$", "d", "b", "c", "b", "Esc", "p"], ["0", "d", "w", ".", "C", "Esc", "P"],
+               ["$", "d", "F", target, "c", "F", rng.choice(t), "Esc", "P"]][i % 8]
+        cases.append(Case(["Esc"] + seq + ["Enter"], mode="vi", initial=(t, ""), timeout=0, prompt="> "))
+    # emacs: a kill / a yank, then a completion or a search, then the command that depends on what came before
+    for i in range(max(6, n // 40)):
+        keys = [["h", "e", "C-w", "C-y", "Tab", "M-y"], ["h", "e", " ", "x", "C-w", "C-w", "C-y", "Tab", "Tab", "M-y"],
+                ["a", "b", "C-u", "Tab", "C-k", "C-y"], ["h", "e", "C-k", "Tab", "C-g", "C-w", "C-y"]][i % 4] + ["Enter"]
+        cases.append(Case(keys, mode="emacs", cands=["hello", "help", "abc"], timeout="none", prompt="> "))
     for _ in range(n):
         mode = rng.choice(["emacs", "emacs", "emacs", "vi"])
         keys = list(rand_text(rng, 3, 14, ["a", "b", " ", " ", ",", "é", "日", "x", "(", "_"]))
